@@ -5,6 +5,7 @@ import (
 	"fmt"
 	"math"
 	"reflect"
+	"runtime/debug"
 	"sort"
 	"strconv"
 	"strings"
@@ -92,7 +93,9 @@ func newExec(c *core.Ctx, st *core.Stats, cs *Case) *exec {
 	goja.VerifSetFuel(x.rt, fuelPerCase)
 	x.rt.Set("detach", x.jsDetach)
 	x.rt.Set("isDet", x.jsIsDet)
-	x.mustRun(prelude)
+	if o := x.call(func() (goja.Value, error) { return x.rt.RunProgram(preludePrg) }); o.Err != nil || o.Panic != nil || o.Assertion != nil {
+		panic(fmt.Sprintf("c17 harness: prelude failed: %v %v %v", o.Err, o.Panic, o.Assertion))
+	}
 	get := func(name string) goja.Callable {
 		f, ok := goja.AssertFunction(x.rt.Get(name))
 		if !ok {
@@ -106,6 +109,14 @@ func newExec(c *core.Ctx, st *core.Stats, cs *Case) *exec {
 	x.objV = x.rt.Get("V").(*goja.Object)
 	x.objDV = x.rt.Get("DV").(*goja.Object)
 	return x
+}
+
+// the prelude is compiled once per process (a *goja.Program is immutable and shareable between runtimes)
+var preludePrg = goja.MustCompile("prelude.js", prelude, false)
+
+func init() {
+	// every case builds and drops a whole Runtime; the live heap is tiny, so collect less often (performance knob only)
+	debug.SetGCPercent(800)
 }
 
 var nativeLittle = func() bool {
@@ -434,9 +445,9 @@ func (x *exec) modelOp(op *Op) (res taref.Value, thr *taref.Throw, ok bool) {
 			if kind == "sym" {
 				kind = "values"
 			}
-			return w.Iterate(v, kind, op.At, effsModel(op.E), op.N)
+			return w.Iterate(v, kind, op.At, effsModel(op.E), op.N, op.Fl == "again")
 		case "spread":
-			r := w.Iterate(v, "values", -1, nil, 1<<20).(*taref.Array)
+			r := w.Iterate(v, "values", -1, nil, 1<<20, false).(*taref.Array)
 			r.Elems = r.Elems[:len(r.Elems)-1] // drop "done"
 			return r
 		case "get":
@@ -574,6 +585,9 @@ func (x *exec) step(i int, op *Op) {
 		// outside the declared domain while the C05 finding (toInt32 & co for |x| >= 2^63) is open: buffer contents reinterpreted
 		// as a float and converted to an integer element type
 		x.inconclusive = "open-C05-finding-huge-int-conversion"
+		if x.c.Replay {
+			x.trace = append(x.trace, "<outside the declared domain, stopped before> "+x.js.js(op))
+		}
 		return
 	}
 	x.executed++
